@@ -100,7 +100,9 @@ Definition body_tiff16 (colors : nat) (s : nat) (row : list N) : option (list N)
 Inductive rowres := ROk (r : list N) | RErr | RPanic.
 Definition of_opt (o : option (list N)) : rowres := match o with Some r => ROk r | None => RPanic end.
 
-(* the `match predictor` of one PNG row; [row] includes the filter-type byte at index 0 *)
+(* the `match predictor` of one PNG row; [row] includes the filter-type byte at index 0 (the row has
+   row_length >= 1 elements, so reading it first — also for /Predictor 15, which the code rejects without
+   looking at it — changes nothing) *)
 Definition png_row (pred : N) (rl bpp : nat) (prev row : list N) : rowres :=
   match get row 0 with
   | None => RPanic
